@@ -42,7 +42,10 @@ package prunner
 //@ pure RIwl(r *PipelineRunner) bool = forall p string :: all(r.waitListByPipeline[p], wlEntry, p) && distinctElems(r.waitListByPipeline[p])
 //@ pure RIids(r *PipelineRunner) bool = forall id uuid.UUID :: id in r.jobsByID ==> r.jobsByID[id] != nil && r.jobsByID[id].ID == id
 //@ pure RIsep(r *PipelineRunner) bool = forall p string, q string :: (base(r.jobsByPipeline[p]) != 0 ==> base(r.jobsByPipeline[p]) != base(r.waitListByPipeline[q])) && (p != q && base(r.jobsByPipeline[p]) != 0 ==> base(r.jobsByPipeline[p]) != base(r.jobsByPipeline[q])) && (p != q && base(r.waitListByPipeline[p]) != 0 ==> base(r.waitListByPipeline[p]) != base(r.waitListByPipeline[q]))
-//@ pure RI(r *PipelineRunner) bool = RIbase(r) && RIids(r) && RIjobs(r) && RIwl(r) && RIsep(r)
+//@ pure registered(j *PipelineJob, r *PipelineRunner) bool = (j.ID in r.jobsByID) ==> r.jobsByID[j.ID] == j
+//@ pure RIreg(r *PipelineRunner) bool = forall p string :: all(r.jobsByPipeline[p], registered, r)
+//@ pure RIwf(r *PipelineRunner) bool = forall p string :: wf(r.jobsByPipeline[p]) && wf(r.waitListByPipeline[p])
+//@ pure RI(r *PipelineRunner) bool = RIbase(r) && RIids(r) && RIwf(r) && RIjobs(r) && RIwl(r) && RIsep(r) && RIreg(r)
 
 // ---------------------------------------------------------------------------------------
 //@ func (*PipelineJob).isRunning
@@ -324,16 +327,37 @@ package prunner
 //@ func (pipelineJobBy).Sort
 //@   lockmode any
 //@   trusted sort.Sort permutes the slice in place using Len/Less/Swap of pipelineJobsSorter
-//@   ensures [perm] sameOutside("mem(*PipelineJob)", jobs) && (old(all(jobs, nonNil)) ==> all(jobs, nonNil))
+//@   ensures [perm] sameOutside("mem(*PipelineJob)", jobs) && permOf(jobs)
 //@   modifies mem(*PipelineJob)
 
+//@ pure swapRel(e *PipelineJob, i int, w []*PipelineJob, m int) bool = (i != m ==> e == old(w[i])) && (i == m ==> e == old(w[len(w)-1]))
+//@ pure idNeq(e *PipelineJob, j *PipelineJob) bool = e.ID != j.ID
 //@ func removeJobFromList
 //@   lockmode W
-//@   requires [elems] all(jobs, nonNil) && jobToRemove != nil
-//@   ensures  [result] base(res) == base(jobs) && off(res) == off(jobs) && (len(res) == len(jobs) || len(res) == len(jobs) - 1) && all(res, nonNil)
+//@   requires [elems] all(jobs, nonNil) && jobToRemove != nil && wf(jobs)
+//@   ensures  [result] base(res) == base(jobs) && off(res) == off(jobs) && cap(res) == cap(jobs) && all(res, nonNil)
+//@   ensures  [absent] old(all(jobs, idNeq, jobToRemove)) ==> res == jobs && same("mem(*PipelineJob)")
+//@   ensures  [removed] !old(all(jobs, idNeq, jobToRemove)) ==> len(res) == len(jobs) - 1 && exists m :: 0 <= m && m < len(jobs) && old(jobs[m]).ID == jobToRemove.ID && allIdx(res, swapRel, jobs, m)
 //@   ensures  [frame] sameOutside("mem(*PipelineJob)", jobs)
 //@   modifies mem(*PipelineJob)
-//@   loop 1 invariant [bounds] 0 <= $i + 1 && $i + 1 <= len(jobs) && same("mem(*PipelineJob)")
+//@   loop 1 invariant [bounds] 0 <= $i + 1 && $i + 1 <= len(jobs) && same("mem(*PipelineJob)") && all(jobs[:$i+1], idNeq, jobToRemove)
+
+//@ pure jobsUntouched() bool = same(PipelineJob.Start) && same(PipelineJob.Canceled) && same(PipelineJob.Completed) && same(PipelineJob.End) && same(PipelineJob.LastError) && same(PipelineJob.sched) && same(PipelineJob.startTimer) && same(PipelineJob.Pipeline) && same(PipelineJob.ID)
+//@ pure liveKept(r *PipelineRunner) bool = forall id uuid.UUID :: old((id in r.jobsByID) && defined(r, r.jobsByID[id].Pipeline) && (jobWaiting(r.jobsByID[id]) || jobRunning(r.jobsByID[id]))) ==> (id in r.jobsByID) && r.jobsByID[id] == old(r.jobsByID[id])
+
+//@ func (*PipelineRunner).SaveToStore
+//@   lockmode none
+//@   ensures  [T] Tjobs() && jobsUntouched()
+//@   ensures  [defs] r.defs == old(r.defs)
+//@   ensures  [C12.keepLive] liveKept(r)
+//@   ensures  [C12.waitLists] sameExcept("map(map[string][]*PipelineJob)", r.jobsByPipeline)
+//@   loop 1 invariant [ri] RI(r) && r.defs == old(r.defs) && r.jobsByPipeline == old(r.jobsByPipeline) && r.jobsByID == old(r.jobsByID) && jobsUntouched() && liveKept(r) && sameExcept("map(map[string][]*PipelineJob)", r.jobsByPipeline)
+//@   loop 2 invariant [ri] RI(r) && r.defs == old(r.defs) && r.jobsByPipeline == old(r.jobsByPipeline) && r.jobsByID == old(r.jobsByID) && jobsUntouched() && liveKept(r) && sameExcept("map(map[string][]*PipelineJob)", r.jobsByPipeline)
+//@   loop 1 invariant [bases] forall p string :: base(r.jobsByPipeline[p]) == old(base(r.jobsByPipeline[p])) && off(r.jobsByPipeline[p]) == old(off(r.jobsByPipeline[p]))
+//@   loop 2 invariant [bases] forall p string :: base(r.jobsByPipeline[p]) == old(base(r.jobsByPipeline[p])) && off(r.jobsByPipeline[p]) == old(off(r.jobsByPipeline[p]))
+//@   loop 2 invariant [sorted] all(sortedJobsInPipeline, nonNil) && all(sortedJobsInPipeline, registered, r) && fresh(base(sortedJobsInPipeline)) && 0 <= $i + 1 && $i + 1 <= len(sortedJobsInPipeline)
+//@   loop 3 invariant [ri] RI(r) && r.defs == old(r.defs) && jobsUntouched() && liveKept(r) && sameExcept("map(map[string][]*PipelineJob)", old(r.jobsByPipeline)) && $held == 2
+//@   loop 4 invariant [ri] RI(r) && r.defs == old(r.defs) && jobsUntouched() && liveKept(r) && sameExcept("map(map[string][]*PipelineJob)", old(r.jobsByPipeline)) && $held == 2 && 0 <= $i + 1 && $i + 1 <= len(tasks) && fresh(base(tasks))
 
 // ---------------------------------------------------------------------------------------
 // Mapping of obligations to the fixed property ids (glob patterns on obligation names)
